@@ -615,6 +615,15 @@ public:
           auto It = TopIdx.find(Key);
           if (It == TopIdx.end())
             It = TopIdx.find(C);
+          if (It == TopIdx.end() && B->succ_size() == 2) {
+            // `if (a && b)`: the terminator condition is the whole logical
+            // expression; the value this block computes is its last operand
+            if (const Expr *LC = B->getLastCondition()) {
+              It = TopIdx.find(LC->IgnoreParens());
+              if (It == TopIdx.end())
+                It = TopIdx.find(LC);
+            }
+          }
           TO["ci"] = (int64_t)(It == TopIdx.end() ? -1 : It->second);
           if (It == TopIdx.end())
             TO["cond"] = expr(C);
